@@ -294,7 +294,234 @@ def c13(res, tier, seed, lib):
         res.check(out == text.encode(), "paint-off-byte-for-byte", "cli:paint", text, repr(out))
 
 
-RUNNERS = {"C13": c13}
+HARNESS = os.path.join(BUILD, "harness-target", "release", "pv-harness")
+
+
+def harness_query(lines):
+    if not lines:
+        return []
+    p = subprocess.run([HARNESS, "query"], input=("\n".join(lines) + "\n").encode(), stdout=subprocess.PIPE, stderr=subprocess.PIPE)
+    return p.stdout.decode("utf-8", "replace").split("\n")[:len(lines)]
+
+
+class Info:
+    """What the library says about a colour string."""
+    def __init__(self, text, ans):
+        self.text = text
+        t = ans.split(" ")
+        self.ok = t[0] == "ok"
+        if self.ok:
+            self.hsl = unhex(t[1]).decode()
+            self.packed = int(t[2])
+            self.keys = {"brightness": int(t[3]), "luminance": int(t[4]), "hue": int(t[5]), "chroma": int(t[6])}
+            self.wire = " ".join(t[7:11])
+
+
+def infos(texts):
+    return [Info(t, a) for t, a in zip(texts, harness_query(["info " + hexs(t) for t in texts]))]
+
+
+def rand_color_text(rnd):
+    k = rnd.randrange(8)
+    if k == 0:
+        g = rnd.randrange(256); return "rgb(%d,%d,%d)" % (g, g, g)
+    if k == 1:
+        return "#%02x%02x%02x" % (rnd.randrange(256), rnd.randrange(256), rnd.randrange(256))
+    if k == 2:
+        return "hsl(%d,%d%%,%d%%)" % (rnd.randrange(360), rnd.randrange(101), rnd.randrange(101))
+    if k == 3:
+        return "rgba(%d,%d,%d,%.2f)" % (rnd.randrange(256), rnd.randrange(256), rnd.randrange(256), rnd.random())
+    if k == 4:
+        return rnd.choice(["red", "blue", "aqua", "cyan", "gray", "grey", "white", "black", "rebeccapurple", "gold", "teal"])
+    if k == 5:
+        return "lab(%d,%d,%d)" % (rnd.randrange(101), rnd.randrange(-100, 100), rnd.randrange(-100, 100))
+    return "rgb(%d,%d,%d)" % (rnd.randrange(256), rnd.randrange(256), rnd.randrange(256))
+
+
+# ------------------------------------------------------------------------------------------ C17
+
+def c17(res, tier, seed, lib):
+    rnd = random.Random(seed)
+    n_lists = 4000 if tier == "thorough" else 260
+    keys = ["brightness", "luminance", "hue", "chroma"]
+    cases = []
+    for i in range(n_lists):
+        ln = rnd.choice([0, 1, 2, 3, 5, 8, 13, 20, 40, 60]) if i % 5 == 0 else rnd.randrange(0, 12)
+        texts = [rand_color_text(rnd) for _ in range(ln)]
+        # duplicates far apart and equal-key clusters
+        if ln >= 3 and rnd.random() < 0.5:
+            texts[rnd.randrange(ln)] = texts[0]
+        if ln >= 4 and rnd.random() < 0.3:
+            g = rnd.randrange(256)
+            texts[1] = "rgb(%d,%d,%d)" % (g, g, g); texts[-1] = "hsl(%d,0%%,%.1f%%)" % (rnd.randrange(360), g / 2.55)
+        cases.append((texts, rnd.choice(keys + ["random"]), rnd.random() < 0.4, rnd.random() < 0.4, rnd.random() < 0.5))
+    all_texts = sorted({t for c in cases for t in c[0]})
+    info = dict(zip(all_texts, infos(all_texts)))
+    lines, meta = [], []
+    for (texts, key, rev, uniq, via_stdin) in cases:
+        args = ["sort-by", key] + (["-r"] if rev else []) + (["-u"] if uniq else [])
+        if via_stdin or not texts:
+            rc, out, err = run_cli(args, stdin=("".join(t + "\n" for t in texts)).encode())
+        else:
+            rc, out, err = run_cli(args + texts)
+        inp = "%s %s" % (args, texts)
+        got = out.decode().split("\n")
+        if got and got[-1] == "":
+            got.pop()
+        res.case("sort " + inp, len(texts) >= 2)
+        res.check(rc == 0, "exit-0", "cli:sort-by", inp, "rc=%s stderr=%r" % (rc, err[:200]))
+        its = [info[t] for t in texts]
+        printed = [i.hsl for i in its]
+        if key == "random":
+            # some permutation (of the distinct packed values under --unique)
+            if uniq:
+                by_print = {}
+                for i in its:
+                    by_print.setdefault(i.hsl, set()).add(i.packed)
+                distinct = {i.packed for i in its}
+                ok_u = len(got) == len(distinct) and all(g in by_print for g in got)
+                res.check(ok_u, "random-is-permutation", "cli:sort-by", inp, str(got))
+            else:
+                res.check(sorted(got) == sorted(printed), "random-is-permutation", "cli:sort-by", inp, str(got))
+            continue
+        # direct oracle: multiset, order, stability, reverse
+        ks = {i.hsl: i.keys[key] for i in its}
+        if not uniq:
+            res.check(sorted(got) == sorted(printed), "output-is-input-multiset", "cli:sort-by", inp, str(got))
+        else:
+            distinct = {i.packed for i in its}
+            res.check(len(got) == len(distinct) and all(g in printed for g in got), "unique-one-per-rgb", "cli:sort-by", inp, str(got))
+        seq = [ks.get(g) for g in got]
+        if None not in seq:
+            ordered = all(seq[j] <= seq[j + 1] for j in range(len(seq) - 1)) if not rev else all(seq[j] >= seq[j + 1] for j in range(len(seq) - 1))
+            res.check(ordered, "non-decreasing-in-key", "cli:sort-by", inp, "%s keys %s" % (got, seq))
+        # model: exact expected sequence
+        op = "sort %d %d %d %s" % (1 if uniq else 0, 1 if rev else 0, len(its), " ".join("%d %d" % (i.packed, i.keys[key]) for i in its))
+        lines.append(op); meta.append((op, printed, got))
+    outs = model_batch(lines)
+    for (op, printed, got), mo in zip(meta, outs):
+        res.model_op()
+        t = mo.split()
+        want = [printed[int(k)] for k in t[1:]] if t and t[0] == "ok" else None
+        if want != got:
+            res.disagree(op, " | ".join(got), mo + " => " + " | ".join(want or []))
+    # ---- pastel list ----
+    names = harness_query([])  # no-op (keeps the helper warm)
+    import re as _re
+    table = _re.findall(r'named_color\("([a-z]+)"', open("/repo/src/named.rs").read())
+    tinfo = infos(table)
+    for key in keys + ["random"]:
+        rc, out, err = run_cli(["list", "--sort", key])
+        got = out.decode().split("\n")
+        if got and got[-1] == "":
+            got.pop()
+        inp = "list --sort " + key
+        res.case(inp)
+        res.check(rc == 0, "exit-0", "cli:list", inp, "rc=%s" % rc)
+        res.check(all(g in table for g in got), "list-prints-only-names", "cli:list", inp, str([g for g in got if g not in table][:5]))
+        by_name = dict(zip(table, tinfo))
+        packed_out = [by_name[g].packed for g in got if g in by_name]
+        res.check(set(packed_out) == {i.packed for i in tinfo}, "list-covers-every-named-rgb", "cli:list", inp, "missing %d" % len({i.packed for i in tinfo} - set(packed_out)))
+        if key != "random":
+            res.check(len(packed_out) == len(set(packed_out)), "list-each-rgb-once", "cli:list", inp, "%d lines, %d distinct" % (len(packed_out), len(set(packed_out))))
+            seq = [by_name[g].keys[key] for g in got if g in by_name]
+            res.check(all(seq[j] <= seq[j + 1] for j in range(len(seq) - 1)), "list-ordered", "cli:list", inp, str(seq[:20]))
+            op = "list %d %s" % (len(tinfo), " ".join("%d %d" % (i.packed, i.keys[key]) for i in tinfo))
+            mo = model_batch([op])[0]
+            res.model_op()
+            t = mo.split()
+            want = [table[int(k)] for k in t[1:]] if t and t[0] == "ok" else None
+            if want != got:
+                res.disagree(op[:200], " ".join(got)[:600], " ".join(want or [])[:600])
+
+
+def infos_packed(printed_lines):
+    return [i.packed for i in infos(printed_lines) if i.ok]
+
+
+# ------------------------------------------------------------------------------------------ C18
+
+def c18(res, tier, seed, lib):
+    rnd = random.Random(seed)
+    import re as _re
+    rows = _re.findall(r'named_color\("([a-z]+)",\s*(\d+),\s*(\d+),\s*(\d+)\)', open("/repo/src/named.rs").read())
+    texts = []
+    for (n, r, g, b) in rows:
+        r, g, b = int(r), int(g), int(b)
+        texts.append(n)
+        for (dr, dg, db) in [(1, 0, 0), (0, -1, 0), (0, 0, 1)]:
+            texts.append("rgb(%d,%d,%d)" % (min(255, max(0, r + dr)), min(255, max(0, g + dg)), min(255, max(0, b + db))))
+    step = 51 if tier != "thorough" else 17
+    for r in range(0, 256, step):
+        for g in range(0, 256, step):
+            for b in range(0, 256, step):
+                texts.append("rgb(%d,%d,%d)" % (r, g, b))
+    texts += ["rgba(255,0,0,0.5)", "hsl(123,45%,67%)", "rgba(0,255,255,0.99)"]
+    near = harness_query(["nearest " + hexs(t) for t in texts])
+    inf = infos(texts)
+    # run the binary in batches (colours as arguments)
+    got = []
+    for i in range(0, len(texts), 200):
+        rc, out, err = run_cli(["format", "name"] + texts[i:i + 200])
+        lines = out.decode().split("\n")
+        if lines and lines[-1] == "":
+            lines.pop()
+        res.check(rc == 0 and len(lines) == len(texts[i:i + 200]), "exit-0", "cli:format-name", str(texts[i:i + 3]), "rc=%s lines=%d" % (rc, len(lines)))
+        got += lines
+    ops = []
+    for t, g, nr, i in zip(texts, got, near, inf):
+        res.case("name " + t, True)
+        parts = nr.split(" ")
+        within = parts[2].split(",")
+        exact = [] if parts[3] == "-" else parts[3].split(",")
+        res.check(g in within, "name-within-0.001-of-minimum", "cli:format-name", t, "got %s, nearest %s" % (g, within))
+        if exact:
+            res.check(g == exact[0], "exact-rgb-maps-to-first-synonym", "cli:format-name", t, "got %s, names with this RGB %s" % (g, exact))
+        ops.append("name " + i.wire)
+    outs = model_batch(ops)
+    for t, g, mo, op in zip(texts, got, outs, ops):
+        res.model_op()
+        want = unhex(mo.split(" ")[1]).decode() if mo.startswith("ok ") else mo
+        if want != g:
+            res.disagree(op + "  (" + t + ")", g, want)
+    # ---- the interactive view shows 'Name:' precisely for exactly named opaque colours ----
+    view = [("red", True), ("aqua", True), ("rebeccapurple", True), ("#ff0001", False), ("rgba(255,0,0,0.5)", False),
+            ("rgba(255,0,0,1.0)", True), ("hsl(0,100%,50%)", True), ("#808081", False), ("grey", True)]
+    for (t, n, r, g, b) in [(n,) * 1 + (n, r, g, b) for (n, r, g, b) in rows[:: (10 if tier != "thorough" else 1)]]:
+        view.append((t, True))
+    for (t, want) in view:
+        rc, out, err = run_cli(["-m", "off", "color", t], tty=True)
+        res.case("view " + t)
+        has = b"Name: " in out
+        res.check(rc == 0 and has == want, "name-line-iff-exactly-named-opaque", "cli:color(tty)", t, "Name line %s, expected %s" % (has, want))
+        if has and want:
+            m = re.search(rb"Name: ([a-z]+)", out)
+            exact = [n for (n, r, g, b) in rows if infos([t])[0].packed == (int(r) << 16 | int(g) << 8 | int(b))]
+            res.check(m is not None and m.group(1).decode() == exact[0], "name-line-first-synonym", "cli:color(tty)", t, "%r vs %s" % (m.group(1) if m else None, exact))
+
+
+# ------------------------------------------------------------------------------------------ C16
+
+def c16(res, tier, seed, lib):
+    for strat in ["vivid", "rgb", "gray", "lch_hue"]:
+        for n in [0, 1, 2, 10, 1000]:
+            rc, out, err = run_cli(["random", "-n", str(n), "-s", strat])
+            lines = out.decode().split("\n")
+            if lines and lines[-1] == "":
+                lines.pop()
+            inp = "random -n %d -s %s" % (n, strat)
+            res.case(inp, n > 0)
+            res.check(rc == 0 and len(lines) == n, "prints-exactly-N", "cli:random", inp, "rc=%s, %d lines" % (rc, len(lines)))
+            inf = infos(lines[:200])
+            res.check(all(i.ok for i in inf), "each-line-is-a-colour", "cli:random", inp, str([l for l, i in zip(lines, inf) if not i.ok][:3]))
+            for l in lines[:200]:
+                res.check(not l.startswith("hsla"), "opaque", "cli:random", inp, l)
+    rc, out, err = run_cli(["random", "-s", "nonsense"])
+    res.case("random -s nonsense")
+    res.check(rc == 2, "unknown-strategy-is-usage-error", "cli:random", "random -s nonsense", "rc=%s" % rc)
+
+
+RUNNERS = {"C13": c13, "C16": c16, "C17": c17, "C18": c18}
 
 
 def run(prop, tier, seed, lib):
